@@ -187,9 +187,9 @@ pub fn step(st: &mut St, backend: &str, toks: &[&str]) -> String {
             };
             update(h, &pat_bytes(sd, l as usize))
         }
-        // C17: feed `nbytes` bytes (byte i = pat_byte(seed, i mod 2^20)) through the real `update`
+        // C17: feed `nbytes` bytes (byte i = pat_byte(seed, i mod BIG_PERIOD)) through the real `update`
         // in 1 MiB calls
-        // one single `update` call with `nbytes` bytes (byte i = pat_byte(seed, i mod 2^20)): lengths
+        // one single `update` call with `nbytes` bytes (byte i = pat_byte(seed, i mod BIG_PERIOD)): lengths
         // beyond 2^29 / 2^32 bytes in ONE slice (the `stream` op feeds the same bytes in 1 MiB calls)
         ["jh", "bigupd", slot, nbytes, seed] => {
             let (Some(n), Some(sd)) = (num(nbytes), num(seed)) else {
